@@ -236,9 +236,26 @@ pub fn parse_cps(s: &str) -> Option<String> {
     }
     let mut o = String::new();
     for p in s.split('.') {
-        o.push(char::from_u32(u32::from_str_radix(p, 16).ok()?)?);
+        // `hex*n` = that character n times (request lines of the scale streams stay short)
+        match p.split_once('*') {
+            Some((h, n)) => { let c = char::from_u32(u32::from_str_radix(h, 16).ok()?)?; let n: usize = n.parse().ok()?; if n > 1 << 24 { return None; } for _ in 0..n { o.push(c); } }
+            None => o.push(char::from_u32(u32::from_str_radix(p, 16).ok()?)?),
+        }
     }
     Some(o)
+}
+/// `cps` with runs of four or more equal characters written `hex*n` (requests only: replies are
+/// compared as text with the model's plain notation)
+pub fn cps_rle(s: &str) -> String {
+    if s.is_empty() { return "-".to_string(); }
+    let mut parts: Vec<String> = Vec::new();
+    let mut it = s.chars().peekable();
+    while let Some(c) = it.next() {
+        let mut n = 1usize;
+        while it.peek() == Some(&c) { it.next(); n += 1; }
+        if n >= 4 { parts.push(format!("{:x}*{}", c as u32, n)); } else { for _ in 0..n { parts.push(format!("{:x}", c as u32)); } }
+    }
+    parts.join(".")
 }
 pub fn parse_hex_bytes(s: &str) -> Option<Vec<u8>> {
     if s == "-" || s.is_empty() {
